@@ -65,7 +65,7 @@ def execute_e2e(case, t):
 @st.composite
 def function_case(draw):
     nw = draw(st.integers(1, 8))
-    K = draw(st.integers(2, 4))
+    K = draw(st.one_of(st.integers(2, 4), st.integers(2, 4), st.integers(2, 4), st.sampled_from([10, 11, 12, 16, 25])))
     T = draw(st.one_of(st.integers(2 * K + 1, 60), st.integers(2 * K + 1, 60), st.integers(2 * K + 1, 60),
                        st.sampled_from([4097, 4700, 8200, 9001])))
     return {"nw": nw if T < 1000 else min(nw, 3), "K": K, "T": T, "seed": draw(st.integers(0, 2 ** 32 - 1)), "min_size": draw(st.sampled_from([1, 1, 2])), "noise_scale": draw(st.sampled_from([1.0, 1.0, 1.0, 1e-3, 1e-5])), "data_dtype": draw(st.sampled_from(["float64", "float64", "float64", "int64", "int32"])),
